@@ -257,10 +257,52 @@ def r5(ctx):
     ctx.check(ok, "is_full:count>=max", "is_full = type count(total) >= max", fb.where(line=fb.line))
 
 
+def r6(ctx):
+    """The IIN octets are only ever ACCUMULATED when bits from different sources are merged: no `|` / `|=` implementation on
+    Iin / Iin1 / Iin2 (including the merge of the application's ApplicationIin) overwrites a field of the accumulator, and the
+    primitive Iin1/Iin2 `|` is a bitwise OR of both operands. An overwrite drops what was merged before (e.g. EVENT_BUFFER_OVERFLOW
+    lost while the application reports CONFIG_CORRUPT)."""
+    prog = ctx.prog
+    impls = [b for b in prog.bodies.values() if re.search(r"^<dnp3::app::header::Iin[12]? as std::ops::BitOr(Assign)?(<.*>)?>::bitor(_assign)?$", b.path)]
+    if len(impls) < 10:
+        raise AnchorError("BitOr impls on Iin types: %d" % len(impls))
+    for bd in impls:
+        sym = ctx.sym(bd)
+        name = bd.path.replace("dnp3::app::header::", "").replace("std::ops::", "").replace("dnp3::outstation::traits::", "")
+        bad = []
+        for b, si, st in bd.assigns():
+            if st.dest.proj and st.dest.proj[-1] in (".iin1", ".iin2", ".value"):
+                e = sym.rvalue_expr(st.rv)
+                own = ("field", ("param", "self"), st.dest.proj[-1][1:])
+                if not mentions(e, lambda x: x == own):
+                    bad.append((b.idx, st.dest.proj[-1], expr_str(e)[:60]))
+        ctx.check(not bad, "iin-merge:%s" % name, "no field of the accumulator is overwritten", bd.where(bad[0][0]) if bad else bd.where(line=bd.line), bad_detail="%s assigns %s = %s: bits merged earlier are dropped" % (name, bad[0][1] if bad else "", bad[0][2] if bad else ""))
+        if re.search(r"^<Iin[12] as BitOr>::bitor$", name):
+            rets = [e for _, _, _, e in ret_sites(bd, sym)]
+            ok = len(rets) == 1 and mentions(rets[0], lambda x: x[0] == "bin" and x[1] == "BitOr" and mentions_name(x, "self") and mentions_name(x, "rhs"))
+            ctx.check(ok, "iin-merge:%s:or" % name, "%s = %s" % (name, expr_str(rets[0])[:60] if rets else "?"), bd.where(line=bd.line))
+        if "ApplicationIin" in name and name.endswith("::bitor"):
+            # each application flag ORs its namesake constant in, under its own test
+            want = {"need_time": "NEED_TIME", "local_control": "LOCAL_CONTROL", "device_trouble": "DEVICE_TROUBLE", "config_corrupt": "CONFIG_CORRUPT"}
+            seen = {}
+            for c in bd.calls():
+                cal = c.term.callee or c.term.declared or ""
+                if not cal.endswith("bitor_assign") and not cal.endswith("::bitor"):
+                    continue
+                gs = [g for g in ctx.guards_at(bd, c.idx) if g.kind == "bool" and g.truth is True and g.a[0] == "field" and g.a[2] in want]
+                e = sym.call_expr(c.term)
+                cn = [x[2] for x in expr_walk(e) if x[0] == "const" and isinstance(x[2], str) and "Iin" in x[2]]
+                if gs:
+                    seen[gs[-1].a[2]] = (cn[0].split("::")[-1] if cn else "?")
+            for f, k in want.items():
+                ctx.check(seen.get(f) == k, "app-iin:%s" % f, "ApplicationIin.%s ORs in %s" % (f, seen.get(f)), bd.where(line=bd.line), bad_detail="ApplicationIin.%s merges %s (expected an OR of %s)" % (f, seen.get(f), k))
+
+
 RULES = [
     ("C13.R1", "T11/T4", "IIN bit positions and getters equal the standard", r1),
     ("C13.R2", "T8", "each response IIN bit is OR-ed under its namesake source", r2),
     ("C13.R3", "T5+T2", "writers of the sticky flags (restart, broadcast) and their guards", r3),
     ("C13.R4", "T3/T5", "every fresh response recomputes IIN before the only transmit sites", r4),
     ("C13.R5", "T2+T4", "overflow flag: set on displacement, cleared only when no type is full", r5),
+    ("C13.R6", "T7", "IIN octets are merged by OR only: no accumulator field is overwritten; application flags OR in their namesake bit", r6),
 ]
